@@ -146,6 +146,14 @@ def body_for(kind, op, k):
         d = {'error': 'ForbiddenOperationException',
              'errorMessage': 'Invalid credentials %d.' % k}
         return json.dumps(d).encode(), 'application/json', d
+    if kind in ('full_big', 'full_huge'):
+        # a well-formed error object of unusual size (a stack trace in
+        # 'cause'): still an error object
+        n = 20000 if kind == 'full_big' else 300000
+        d = {'error': 'IllegalStateException',
+             'errorMessage': 'Internal error %d.' % k,
+             'cause': 'at com.mojang.Something(line %d) ' % k * (n // 34)}
+        return json.dumps(d).encode(), 'application/json', d
     if kind in ('full_latin1', 'full_utf8_raw', 'full_utf8_charset'):
         # non-ASCII text sent raw (not \\u-escaped), in the character set the
         # Content-Type declares (JSON's default UTF-8 when it declares none)
@@ -560,7 +568,8 @@ def op_strategy():
                                 'partial_msg', 'null', 'number', 'string',
                                 'array', 'text', 'empty', 'true',
                                 'null_message', 'null_error', 'full_latin1',
-                                'full_utf8_raw', 'full_utf8_charset'])
+                                'full_utf8_raw', 'full_utf8_charset',
+                                'full_big', 'full_huge'])
     err = st.tuples(st.sampled_from(ERR_STATUS), err_body)
     user = st.sampled_from(['alice@example.org', 'bob', 'é'])
     pw = st.sampled_from(['hunter2', ''])
@@ -592,7 +601,8 @@ def t_subsets(ctx, lo, hi):
                (500, 'null'), (400, 'text'), (429, 'partial_error'),
                (403, 'null_message'), (503, 'null_error'),
                (403, 'full_latin1'), (401, 'full_utf8_raw'),
-               (403, 'full_utf8_charset')]
+               (403, 'full_utf8_charset'), (500, 'full_big'),
+               (403, 'full_huge')]
     for init in subsets:
         for rep in replies:
             for op in (('authenticate', 'u', 'p', False),
@@ -620,7 +630,7 @@ def t_subsets(ctx, lo, hi):
             history_case(ctx, {'initial': [True] * 5, 'ops': ops})
     ctx.sample({'initial': [True, True, False, True, False],
                 'ops': [('refresh', 403, 'full')]}, 'subsets')
-    ctx.exhaustive_done('all 32 initial field subsets x 7 operations x 11 '
+    ctx.exhaustive_done('all 32 initial field subsets x 7 operations x 13 '
                         'reply classes (single step)')
 
 
